@@ -350,17 +350,19 @@ impl RegretParams {
             strat.fill(0.0);
             strat[ind] = 1.0;
         } else {
+            // subtract the largest scaled regret so that exp can't overflow for either sign of
+            // the weight
             let max = cum_reg
                 .into_floats_mut()
-                .map(|&mut v| v)
+                .map(|&mut v| v * self.no_positive)
                 .reduce(f64::max)
                 .unwrap();
             let norm: f64 = cum_reg
                 .into_floats_mut()
-                .map(|&mut reg| ((reg - max) * self.no_positive).exp())
+                .map(|&mut reg| (reg * self.no_positive - max).exp())
                 .sum();
             for (&mut reg, val) in cum_reg.into_floats_mut().zip(strat.iter_mut()) {
-                *val = ((reg - max) * self.no_positive).exp() / norm;
+                *val = (reg * self.no_positive - max).exp() / norm;
             }
         }
     }
